@@ -148,8 +148,10 @@ class enum_item_init:
 # ------------------------------------------------------------------------------------------ Reference
 @contract('pydbml._classes.reference:Reference.__init__')
 class reference_init:
-    """The endpoints are the very Column objects given (in order), in lists of this call."""
-    properties = ('C01', 'C05', 'C11')
+    """The endpoints are the very Column objects given (in order), in lists of this call.  C04: the kind and the
+    inline flag are stored exactly as declared (what decides "inline clause or ALTER" is computed from the *current*
+    kind and flag by Reference.inline, so a later change of the kind cannot leave a stale decision behind)."""
+    properties = ('C01', 'C05', 'C11', 'C04')
     params = {'self': 'Reference', 'type': 'Optional[str]', 'col1': 'Union[Column,List[Column]]',
               'col2': 'Union[Column,List[Column]]', 'name': 'Optional[str]', 'comment': 'Optional[str]',
               'on_update': 'Optional[str]', 'on_delete': 'Optional[str]', 'inline': 'bool'}
